@@ -404,7 +404,11 @@ def unpack_opargs_bytecode(code, opc):
         op = code2num(code, offset)
         offset += 1
         if op_has_argument(op, opc):
-            arg = code2num(code, offset) | extended_arg
+            arg = (
+                code2num(code, offset)
+                | (code2num(code, offset + 1) << 8)
+                | extended_arg
+            )
             extended_arg = (
                 extended_arg_val(opc, arg)
                 if hasattr(opc, "EXTENDED_ARG") and op == opc.EXTENDED_ARG
